@@ -846,6 +846,17 @@ def handleLx (st : St) (args : List String) : St × String :=
         | none => (st, "dead")
       | none => (st, "no-such-lx")
     | _, _ => (st, "bad-op")
+  | ["ff", id, w] =>
+    -- forced bytes (M6 `forceBytes`, exhaustive probe) of the byte-level engine after the bytes `w`
+    match parseNat? id, parseHex? w with
+    | some id, some w =>
+      match st.lxs.find? (·.1 = id) with
+      | some (_, C) =>
+        match Lx.run C (Lx.init C) w with
+        | some s => (st, s!"ok {showHex (forceBytes ({ step := fun s b => Lx.push C s b } : Rec Lx.St) (fun s => Lx.isAccepting C s) 32 4096 s).1}")
+        | none => (st, "dead")
+      | none => (st, "no-such-lx")
+    | _, _ => (st, "bad-op")
   | _ => (st, "bad-op")
 
 
